@@ -2,11 +2,15 @@
 Tokenizer laws of the filter theorems, discharged for the concrete tokenizer `htmlTokenize` (the instantiation of the
 C16 model in `Model/FilterHtml.lean`) from the C16 lemmas of W5 (`Proofs/HtmlNext.lean`).
 
-  `htmlTokenize_lossless : Lossless htmlTokenize`   (hypothesis of every C04 theorem)
+  `htmlTokenize_lossless : Lossless htmlTokenize`      (`Tokenizer::new`, append_child / prepend_child)
+  `htmlTokenize_losslessS : LosslessS htmlTokenize`    (`Tokenizer::new_fragment(data, last_context)`, the filter loop)
+  `htmlTokenize_losslessAll`                           (both: hypothesis of every C04 theorem)
+  `htmlStream_nil_erase`                               (without context the stream tokenizer IS the plain one)
 -/
 import RioModel.Proofs.FilterHtml
 import RioModel.Model.FilterHtml
 import RioModel.Proofs.HtmlNext
+import RioModel.Proofs.HtmlStream7
 set_option linter.unusedSimpArgs false
 set_option linter.unusedVariables false
 
@@ -75,7 +79,8 @@ theorem tokenizeGo_lossless : ∀ (n : Nat) (t : Tokenizer) (acc ts : List Tok) 
 /-- **C16 `lossless` on the level of the filters**: the raw bytes of the tokens followed by the remainder are the input. -/
 theorem htmlTokenize_lossless : Lossless htmlTokenize := by
   intro d
-  unfold htmlTokenize
+  show rawsOf (htmlPlain d).1 ++ (htmlPlain d).2 = d
+  unfold htmlPlain
   cases h : htmlTokenize? d with
   | none => simp [rawsOf]
   | some r =>
@@ -87,5 +92,116 @@ theorem htmlTokenize_lossless : Lossless htmlTokenize := by
     have := tokenizeGo_lossless _ _ [] ts rest hnew h
     rw [this]
     simp [rawsOf, restL, Tokenizer.new]
+
+/-! ### the stream tokenizer (`new_fragment(data, last_context)`) -/
+
+theorem tokenizeGoX_lossless : ∀ (n : Nat) (t : Tokenizer) (acc xs : List TokX) (r c : Bytes), Inv t →
+    tokenizeGoX n t acc = some (xs, r, c) → rawsOf (toksOf xs) ++ r = rawsOf (toksOf acc.reverse) ++ restL t
+  | 0, _, _, _, _, _, _, h => by simp [tokenizeGoX] at h
+  | n + 1, t, acc, xs, r, c, hi, h => by
+    have hi1 : Inv (next t) := next_inv' t hi
+    have hb : (next t).buf = t.buf := next_buf' t hi
+    have hs : (next t).rawS = t.rawE := next_rawS' t hi
+    have hsplit : restL t = rawL (next t) ++ restL (next t) := by
+      unfold restL rawL
+      rw [hb, hs]
+      exact extract_split t.buf t.rawE (next t).rawE t.buf.size (by rw [← hs]; exact hi1.raw) (by rw [← hb]; exact hi1.ok.le)
+    rw [tokenizeGoX] at h
+    split at h
+    · simp at h
+    · split at h
+      · rw [raw_eq _ hi1, buffered_eq _ hi1] at h
+        simp only at h
+        injection h with h
+        injection h with h1 h2
+        injection h2 with h2 h3
+        subst h1 h2
+        rw [hsplit]
+      · rw [raw_eq _ hi1] at h
+        simp only at h
+        split at h
+        · split at h
+          · rename_i nm b t2 htn
+            have hfr := tagName_frame (next t) (some nm, b) (by rw [htn]) hi1
+            rw [htn] at hfr
+            have := tokenizeGoX_lossless n t2 _ xs r c hfr.1 h
+            rw [this, hfr.2, hsplit]
+            simp [rawsOf, toksOf, List.append_assoc]
+          · rename_i b t2 htn
+            have hfr := tagName_frame (next t) (none, b) (by rw [htn]) hi1
+            rw [htn] at hfr
+            have := tokenizeGoX_lossless n t2 _ xs r c hfr.1 h
+            rw [this, hfr.2, hsplit]
+            simp [rawsOf, toksOf, List.append_assoc]
+          · simp at h
+        · have := tokenizeGoX_lossless n (next t) _ xs r c hi1 h
+          rw [this, hsplit]
+          simp [rawsOf, toksOf, List.append_assoc]
+
+theorem newFragment_inv (b : Array Nat) (c : List Nat) : Inv (Tokenizer.newFragment b c) := by
+  obtain ⟨_, h2, h3, _, _, h6, h7, h8⟩ := newFragment_fields b c
+  exact ⟨by rw [h2, h3]; exact Nat.le_refl _, ⟨by rw [h2]; exact Nat.zero_le _, h6, h7, h8⟩,
+    (newFragment_rawCtx b c).tagOk⟩
+
+/-- **`lossless` for the stream tokenizer**, whatever the context -/
+theorem htmlTokenize_losslessS : LosslessS htmlTokenize := by
+  intro c d
+  show rawsOf (toksOf (htmlStream c d).1) ++ (htmlStream c d).2.1 = d
+  unfold htmlStream
+  cases h : htmlStream? c d with
+  | none => simp [rawsOf, toksOf]
+  | some r =>
+    obtain ⟨xs, rest, c'⟩ := r
+    simp only [Option.getD_some]
+    unfold htmlStream? at h
+    have := tokenizeGoX_lossless _ _ [] xs rest c' (newFragment_inv d.toArray c) h
+    rw [this]
+    simp [rawsOf, toksOf, restL, (newFragment_fields d.toArray c).1, (newFragment_fields d.toArray c).2.1]
+
+theorem htmlTokenize_losslessAll : LosslessAll htmlTokenize := ⟨htmlTokenize_lossless, htmlTokenize_losslessS⟩
+
+/-! ### without a context the stream tokenizer is the plain one -/
+
+theorem tokenizeGoX_erase : ∀ (n : Nat) (t : Tokenizer) (acc : List TokX),
+    (tokenizeGoX n t acc).map (fun r => (toksOf r.1, r.2.1)) = tokenizeGo n t (toksOf acc)
+  | 0, _, _ => rfl
+  | n + 1, t, acc => by
+    rw [tokenizeGoX, tokenizeGo]
+    split
+    · rfl
+    · split
+      · cases (next t).raw <;> cases (next t).buffered <;> simp [toksOf]
+      · cases (next t).raw with
+        | none => rfl
+        | some r =>
+          simp only
+          split
+          · split
+            · rename_i nm b t2 htn
+              rw [tokenizeGoX_erase n t2]
+              simp [toksOf]
+            · rename_i b t2 htn
+              rw [tokenizeGoX_erase n t2]
+              simp [toksOf]
+            · rfl
+          · rw [tokenizeGoX_erase n (next t)]
+            simp [toksOf]
+
+/-- **With the empty context, the tokens and the remainder of the stream tokenizer are those of the plain tokenizer**
+(`new_fragment(data, "")` = `new(data)`). -/
+theorem htmlStream_nil_erase (d : Bytes) :
+    toksOf (htmlTokenize.stream [] d).1 = (htmlTokenize d).1 ∧ (htmlTokenize.stream [] d).2.1 = (htmlTokenize d).2 := by
+  show toksOf (htmlStream [] d).1 = (htmlPlain d).1 ∧ (htmlStream [] d).2.1 = (htmlPlain d).2
+  have h := tokenizeGoX_erase (d.length + 2) (Tokenizer.new d.toArray) []
+  unfold htmlStream htmlPlain htmlStream? htmlTokenize?
+  rw [newFragment_nil]
+  simp only [toksOf, List.map_nil] at h
+  rw [← h]
+  cases tokenizeGoX (d.length + 2) (Tokenizer.new d.toArray) [] with
+  | none => simp [toksOf]
+  | some r => simp [toksOf]
+
+/-- nothing in, nothing out -/
+theorem htmlStream_nil_nil : (htmlTokenize.stream [] []).1 = [] := by decide +kernel
 
 end Rio.Filter
